@@ -8,7 +8,7 @@ from sa.astx import call_name, dotted, src, walk_local
 from sa.effects import accesses, class_accesses
 from sa.selftest import Mutant, Silent
 from sa.source import methods
-from sa.props._lib_b import (MiniBudget, MiniEval, MiniRaise, check_delayed_call, lin_cmp, lin_cmp_text, lin_eq, linform, model_class)
+from sa.props._lib_b import (MiniBudget, MiniEval, MiniRaise, check_delayed_call, public_api_effects, lin_cmp, lin_cmp_text, lin_eq, linform, model_class)
 
 PROPERTY = "C09"
 TASK = "internet/task.py"
@@ -97,6 +97,22 @@ def check(ctx):
                 ctx.violation("calls/ownership", c, f"operation of kind '{a.kind}' on `calls`")
         ctx.floor("calls/ownership", len(acc), 3)
 
+    with ctx.section("public API"):
+        # user code runs inside advance()'s loop; what it can call there (every public method but advance/pump themselves, whose
+        # nesting is part of the design) may add a call at the end and re-sort, nothing else: no call is taken out or reordered
+        # behind advance()'s back (the canceller's remove is reached through DelayedCall.cancel and checked separately)
+        roots = sorted(n for n in ms if not n.startswith("_") and n not in ("advance", "pump"))
+        seen = set()
+        for root, chain, a in public_api_effects(mod, cls, {"calls"}, roots, {"advance", "pump"}):
+            key = (root, a.func, src(a.node))
+            if key in seen:
+                continue
+            seen.add(key)
+            ok = a.kind in ("append", "sort") or (a.kind == "remove" and a.func.count(".") >= 2)
+            ctx.check(ok, "api/no-reordering-from-user-callable", ctx.construct(f"{C}.{root}", " -> ".join(chain) + ": " + src(a.node)[:90]),
+                      f"{root}() can be called by user code from inside a running call and performs `{src(a.node)[:70]}` ({a.kind}) on `calls`: "
+                      "a pending call disappears or changes place while advance() is iterating")
+        ctx.floor("api/no-reordering-from-user-callable", len(seen), 2, "reachable mutations")
     if not sorters:
         sorters = {n for n, m in ms.items() if any(isinstance(c, ast.Call) and isinstance(c.func, ast.Attribute) and c.func.attr == "sort"
                                                  and _self_attr(c.func.value, "calls") for c in ast.walk(m))}
@@ -346,4 +362,13 @@ MUTANTS += [
 SILENT += [
     Silent("defensive-cancelled-skip", TASK, _POP, _POP_SKIP),
     Silent("advance-early-return-when-empty", TASK, "        self.rightNow += amount\n        self._sortCalls()\n", "        self.rightNow += amount\n        if not self.calls:\n            return\n        self._sortCalls()\n"),
+]
+
+MUTANTS += [
+    # a public accessor that tidies up: callable from inside a running call, it takes calls out behind advance()'s back
+    Mutant("accessor-drops-head", TASK, "        return self.calls\n", "        while self.calls and self.calls[0].called:\n            self.calls.pop(0)\n        return self.calls\n",
+           expect_rule="api/no-reordering-from-user-callable"),
+]
+SILENT += [
+    Silent("accessor-resorts", TASK, "        return self.calls\n", "        self._sortCalls()\n        return self.calls\n"),
 ]
